@@ -700,6 +700,9 @@ class Body:
             t = b["term"]
             if t["k"] == "call":
                 yield CallSite(self, bi, t)
+            elif t["k"] == "goto" and t.get("inl_term") is not None:
+                # the call of a known function that was inlined here along a new call edge (inline.py): still a call of that function
+                yield CallSite(self, bi, t["inl_term"])
 
     def stmts(self):
         live = self.live_blocks()
@@ -826,12 +829,20 @@ class Body:
 # ----------------------------------------------------------------------------- program
 
 class Program:
-    def __init__(self, j, config=None):
+    def __init__(self, j, config=None, inline=True):
         self.j = j
         self.config = config or j["header"].get("config")
         self.types = j["types"]
-        from . import inline
-        self.inline_report = inline.inline_program(j, self.config)
+        self._pristine = None
+        self.is_pristine = not inline
+        if inline:
+            import json as _json
+            self._raw_json = _json.dumps(j)      # the program as written (before the inlining normal form), for rules that need both views
+            from . import inline as _inl
+            self.inline_report = _inl.inline_program(j, self.config)
+        else:
+            self._raw_json = None
+            self.inline_report = {"novel": [], "inlined_sites": 0, "new_edges": [], "dropped": [], "kept": []}
         self.bodies = [Body(self, b) for b in j["bodies"]]
         self.by_id = {b.id: b for b in self.bodies}
         self.by_key = defaultdict(list)
@@ -846,6 +857,15 @@ class Program:
 
     def ty(self, i):
         return Type(self, i)
+
+    def pristine(self):
+        """the same program WITHOUT the inlining normal form (novel helpers are functions of their own, closures are closures)"""
+        if self.is_pristine:
+            return self
+        if self._pristine is None:
+            import json as _json
+            self._pristine = Program(_json.loads(self._raw_json), self.config, inline=False)
+        return self._pristine
 
     # ------------------------------------------------------------ lookup
     def find(self, adt=None, name=None, trait=None, in_trait=None, closure=None, path_re=None):
